@@ -37,7 +37,7 @@ def gen_case(rng, focus=None):
     if rng.random() < 0.15:
         envacts.append("co")
     if rng.random() < (0.5 if focus == "fault" else 0.08):
-        envacts.append(rng.choice(["fo", "fe"]))
+        envacts.append(rng.choice(["fo", "fe", "fo", "fe", "bo", "be"]))
     if rng.random() < (0.3 if focus == "fault" else 0.08):
         envacts.append("int")
     rng.shuffle(envacts)
